@@ -53,6 +53,7 @@ type Spec struct {
 	ExplicitBusy  bool       `json:"explicit_busy,omitempty"`   // client peers: a first SETUP with explicit ports whose RTCP port is occupied
 	SrvListenFail int        `json:"srv_listen_fail,omitempty"` // server: its Nth ListenPacket call fails (1, 2 = the UDP listeners of Start; on Linux the multicast writers do not go through ListenPacket)
 	SrvTCPFail    bool       `json:"srv_tcp_fail,omitempty"`    // server: net.Listen fails (after the UDP listeners were opened)
+	DialBlock     string     `json:"dial_block,omitempty"`      // server_kind "blockdial": which connect blocks until its context ends: "plain" | "tls" | "tunnel1" | "tunnel2"
 	Redirect      bool       `json:"redirect,omitempty"`        // script server: the first DESCRIBE is answered with 302 to another path
 	Seed          uint64     `json:"seed"`
 }
@@ -68,6 +69,8 @@ type Outcome struct {
 	Persistent  bool           `json:"persistent_leak,omitempty"` // what is left at the end is still there after 8 more seconds
 	Sockets     [2]int         `json:"sockets"`                   // socket descriptors of the process before the scenario / after everything was closed
 	NotClosed   []string       `json:"not_closed,omitempty"`      // sockets handed to the closed object (Listen / Accept / Dial / ListenPacket hooks) that are still open after its Close
+	DialEnd     string         `json:"dial_end,omitempty"`        // blockdial: how the blocked connect ended ("canceled" by Close, "deadline", "")
+	APIErr      bool           `json:"api_err,omitempty"`         // blockdial: the pending API call returned an error
 	Hang        bool           `json:"hang"`
 	HangDump    string         `json:"hang_dump,omitempty"`
 	BlockedAt   []string       `json:"blocked_at_close_return"` // goroutines of the closed object's side parked at a blocking operation at the instant Close returned
@@ -99,7 +102,14 @@ func (sp Spec) slackMs() int {
 	return 3000
 }
 
-func (sp Spec) boundMs() float64 { return float64(2*sp.WriteTimeout + sp.slackMs()) }
+func (sp Spec) boundMs() float64 {
+	if sp.ServerKind == "blockdial" {
+		// Close during connect: the dial must be aborted through the client's context; ReadTimeout (= dial
+		// timeout) is 6 s in these scenarios, so 2 s separates "aborted" from "ran into the dial timeout"
+		return 2000
+	}
+	return float64(2*sp.WriteTimeout + sp.slackMs())
+}
 
 // hangAfterMs: a Close that has not returned by then is given up
 func (sp Spec) hangAfterMs() int { return 2*sp.WriteTimeout + sp.slackMs() + 15000 }
